@@ -10,6 +10,8 @@ Accepted statement forms (exactly those that occur; anything else is a *problem*
   <name> = kwargs[<str>]                                               save
   <targets> = util.filter_kwargs(<function>, <args>..., [name=<arg>]..., [**kwargs])   call (viaFilter)
   <targets> = <function>(<args>..., [name=<arg>]..., [**kwargs])       call (direct)
+  <function>(<args>...) / util.filter_kwargs(<function>, <args>...)    call whose result is discarded (no targets),
+                                                                       e.g. `validate(reference_beats, estimated_beats)`
   if kwargs[<str>] is not None: <one of the above>                     guard notNone
   if <str> not in kwargs: <one of the above>                           guard absent
   return scores                                                        ret (must be last)
@@ -253,7 +255,13 @@ class EvalTranslator:
                     and isinstance(c.args[0], ast.Constant) and isinstance(c.args[0].value, str):
                 self.steps.append((guard, ".setDefault %s (%s)" % (lean_str(c.args[0].value), const_kv(c.args[1]))))
                 return
-            raise Unsupported(st, "unsupported expression statement")
+            if isinstance(c.func, ast.Attribute) and isinstance(c.func.value, ast.Name) \
+                    and c.func.value.id in (self.kw, self.scores):
+                raise Unsupported(st, "unsupported method call on %s" % c.func.value.id)
+            # a direct / filtered call of a mir_eval function whose result is discarded (resolve_function and
+            # self.call reject everything else: externals, methods, evaluate(), filter_kwargs itself)
+            self.call(c, [], guard, allow_nested)
+            return
         if not isinstance(st, ast.Assign) or len(st.targets) != 1:
             raise Unsupported(st, "unsupported statement")
         tgt, val = st.targets[0], st.value
